@@ -10,6 +10,7 @@ package protocol
 //@ spec macro otherrole(v, device) = (v == RVDevOnly && !device) || (v == RVOwnerOnly && device)
 
 //@ func protocol.parseDirective
+//@   params vars device
 //@   props C20 C10(sweep)
 //@   sweep bounds,panic,make,nilmem
 //@   invariant loop#1: forall k in 0..rangeindex+1: !otherrole(vars[k].Variable, device)
@@ -22,15 +23,18 @@ package protocol
 //@   ensures @mediumw result != nil && result.WlanIface != nil ==> (*result.WlanIface < 10 || *result.WlanIface == 21)
 
 //@ func protocol.parseURLs
+//@   params vars device
 //@   props C20 C10(sweep)
 //@   sweep bounds,panic,make,nilmem
 //@   callassert Itoa#1: @roleport (device && v.Variable == RVDevPort) || (!device && v.Variable == RVOwnerPort)
 
 //@ func protocol.ParseDeviceRvInfo
+//@   params rvInfo
 //@   props C20 C10(sweep)
 //@   sweep bounds,panic,make,nilmem
 
 //@ func protocol.ParseOwnerRvInfo
+//@   params rvInfo
 //@   props C20 C10(sweep)
 //@   sweep bounds,panic,make,nilmem
 
@@ -38,17 +42,20 @@ package protocol
 
 // PubOf(k) is DEFINED as the crypto.PublicKey that PublicKey.Public parses out of k.
 //@ func protocol.PublicKey.Public
+//@   params pub
 //@   nopaths
 //@   pure
 //@   ensures! err == nil ==> u(result0) == PubOf(u(*pub))
 
 // HashFunc: registry lookup; panics on an unknown id (callers must establish it)
 //@ func protocol.HashAlg.HashFunc
+//@   params alg
 //@   inline
 //@   sweep panic
 
 // ---- message type -> protocol (C08) -------------------------------------------------------------
 //@ func protocol.Of
+//@   params msgType
 //@   props C08
 //@   sweep panic
 //@   pure
@@ -61,6 +68,7 @@ package protocol
 // an X5CHAIN key: the subject key is the key of the first (leaf) certificate of the
 // chain, whatever the number of certificates; the chain is kept in wire order (C09, C04)
 //@ func protocol.PublicKey.parseX5Chain
+//@   params pub
 //@   props C09 C04 C01 C06 C10(sweep)
 //@   sweep bounds,panic,make,nilmem
 //@   invariant loop#1: forall k in 0..rangeindex+1: certs[k] != nil
